@@ -26,7 +26,7 @@ EXPLANATION = ('Failure-atomicity and guard rules on the CFG of FeatureRef::appl
                'value from readFeats, a cast-chain typing rule on the setting comparison, copy-constructor use at the two clone sites, '
                'the language match, and the shared tag-normalisation rule.  How need_bits are packed into 32-bit chunks and which bytes '
                'a label has are value-level and not decided.')
-FLOORS = {'NOSTRADDLE': 1, 'FAILATOMIC': 6, 'READGUARD': 1, 'NOSETTINGS': 1, 'SETTINGZEXT': 1, 'CLONE': 3, 'LANGMATCH': 6, 'INDEXTESTS': 1, 'TAGNORM': 3, 'NARROWREAD': 1}
+FLOORS = {'NOSTRADDLE': 1, 'FAILATOMIC': 6, 'READGUARD': 1, 'NOSETTINGS': 1, 'SETTINGZEXT': 1, 'CLONE': 3, 'LANGMATCH': 6, 'INDEXTESTS': 1, 'TAGNORM': 3, 'NARROWREAD': 1, 'LABELENC': 4}
 
 
 def failatomic(run, fx):
@@ -454,5 +454,7 @@ def run(run):
     tagnorm.check(run, fx, 'TAGNORM')
     from . import vecmodel
     vecmodel.check(run, fx, 'FAILATOMIC')     # applyValToFeature grows the value vector with resize(): the words it appends must be zero, the others untouched
+    from . import c11
+    c11.decodeexact(run, fx, 'LABELENC')     # 'labels ... identical in all three encodings': the converters between them are exact on a grid of scalar values (shared with C11)
     from . import c13
     c13.narrowread(run, fx)        # a language tag / feature id / setting read from Feat or Sill is not truncated on its way into the map (shared with C01, C13)
